@@ -37,6 +37,8 @@ void   verif_fs_fail(const char *op, int times);         // make the next calls 
 void   verif_fs_trace_begin(void);
 int    verif_fs_crash_consistent(const char *name, const char *backup);  // number of crash points of the recorded trace without a complete state
 void   verif_text_equal(const char *a, long na, const char *b, long nb, const char *label);   // same words; differing words are numbers of equal value
+void   verif_omp_config(int threads, int single_thread, int reverse);   // logical OpenMP threads of the interpreter (native: omp_set_num_threads)
+int    verif_omp_regions(void);                                        // parallel regions executed so far (native: -1)
 long   verif_param(const char *name, long dflt);       // tier-dependent bound chosen by the check driver (recorded in the evidence)
 void   verif_need_module(void);                        // native runs: make sure a Colvars module + stub proxy exist (cvm::error needs them); interpreter: no-op, cvm::error is modelled
 }
